@@ -154,6 +154,7 @@ type exec struct {
 	epoch   int   // clean reopens so far (stores with From > epoch are not mounted yet)
 	crashed bool  // a crash was injected in this run
 	cmpV    int64 // version being compared by compareContent (0 = the working state)
+	cmpLive bool  // comparing the live store between commits
 }
 
 func (e *exec) mounted(i int) bool { return e.tr.Stores[i].From <= e.epoch }
@@ -282,6 +283,9 @@ func (e *exec) compareContent(rs *rootmulti.Store, want []content, prop, oracle 
 			}
 			if sc.Transient {
 				w = content{}
+				if e.cmpLive && want != nil {
+					w = want[i] // the live store between commits: a transient store holds what the block wrote so far
+				}
 			}
 			if err != nil || !pairsEqual(got, sortedPairs(w, rev)) {
 				a := map[string]string{}
@@ -416,6 +420,8 @@ func (e *exec) do(s *Step) {
 		st.Fault("restart")
 	case "load":
 		e.loadVersion(s.Version)
+	case "loadcopy":
+		e.loadCopy(s.Version)
 	case "query":
 		e.query(s)
 	}
@@ -695,6 +701,44 @@ func (e *exec) loadVersion(v int64) {
 			}
 		}
 	}
+}
+
+// loadCopy: what the application does for every historical read (custom queries, PrevCtx): a copy of the LIVE
+// multistore is pointed at version v. The copy must show the committed content of v whatever the live store has
+// pending, and the live store must not notice.
+func (e *exec) loadCopy(v int64) {
+	st := e.res.Stats
+	var cms stypes.CommitMultiStore
+	var err error
+	func() {
+		defer func() {
+			if r := recover(); r != nil {
+				err = fmt.Errorf("panic: %v", r)
+			}
+		}()
+		cp, ok := (*e.rs.CopyStore()).(*rootmulti.Store)
+		if !ok {
+			err = fmt.Errorf("CopyStore returned an unexpected type")
+			return
+		}
+		err = cp.LoadVersion(v)
+		cms = cp
+	}()
+	st.C("load_through_copy", 1)
+	e.log = append(e.log, fmt.Sprintf("loadcopy %d err=%v", v, err != nil))
+	if v >= 1 && v <= e.m.latest && e.m.retained(v) {
+		if err != nil {
+			e.viol("C12", "retained-version-unreadable", map[string]string{"kind": "retained", "via": "copy"}, "LoadVersion(%d) on a copy of the live store failed although the policy retains it (latest %d): %v", v, e.m.latest, err)
+		} else if rs, ok := cms.(*rootmulti.Store); ok {
+			e.cmpV = v
+			e.compareContent(rs, e.m.versions[v], "C12", "content-at-version", map[string]string{"via": "copy"}, fmt.Sprintf("LoadVersion(%d) on a copy of the live store (latest %d, uncommitted writes pending)", v, e.m.latest))
+			e.cmpV = 0
+		}
+	}
+	// the live store still shows its own working content
+	e.cmpLive = true
+	defer func() { e.cmpLive = false }()
+	e.compareContent(e.rs, e.m.work, "C12", "live-store-after-historical-read", nil, fmt.Sprintf("working content after LoadVersion(%d) on a copy", v))
 }
 
 func (e *exec) compareContentQuiet(rs *rootmulti.Store, want []content) bool {
